@@ -69,6 +69,7 @@ class AsyncListener:
         'undone',
         'heard',
         'last_time',
+        'last_read',
         'last_message',
         'transport',
         'sock_description',
@@ -85,6 +86,7 @@ class AsyncListener:
         self.undone = False
         self.heard = False
         self.last_time: float = 0
+        self.last_read: float = 0
         self.last_message: Optional[DNSIncoming] = None
         self.transport: Optional[_WrappedTransport] = None
         self.sock_description: Optional[str] = None
@@ -123,7 +125,7 @@ class AsyncListener:
         if (
             self.data == data
             and (now - _DUPLICATE_PACKET_SUPPRESSION_INTERVAL) < self.last_time
-            and (not self.undone or (now - _DUPLICATE_PACKET_BACK_TO_BACK_INTERVAL) < self.last_time)
+            and (not self.undone or (now - _DUPLICATE_PACKET_BACK_TO_BACK_INTERVAL) < self.last_read)
             and self.last_message is not None
             and not self.last_message.has_qu_question()
             # A query from a legacy source port is answered by unicast to that
@@ -140,7 +142,9 @@ class AsyncListener:
                 and (self.last_message.truncated or (self._deferred and self._holds_truncated_query_of(addrs)))
             )
         ):
-            # Guard against duplicate packets
+            # Guard against duplicate packets. A link-layer copy of this copy
+            # follows it at once, not the datagram that was processed
+            self.last_read = now
             if self.last_message.is_query() and self.heard:
                 # not answered again, but its questions were heard again (if they
                 # were heard at all: nothing was registered then, or is now)
@@ -174,6 +178,7 @@ class AsyncListener:
         msg = DNSIncoming(data, addr_port, scope, now)
         self.data = data
         self.last_time = now
+        self.last_read = now
         self.last_message = msg
         self.undone = False
         self.heard = False
